@@ -86,10 +86,24 @@ func ExpandBatch(def *SegDef, segIdx int) []model.Doc {
 	}
 	for i := range docs {
 		d := &docs[i]
+		// ice sizes its location slices by the posting's (summed) frequency: a
+		// term that has locations in any instance of a field keeps every
+		// instance's frequency in a range that is not a multi-gigabyte request
+		withLocs := map[string]bool{}
+		for j := range d.Fields {
+			for k := range d.Fields[j].Terms {
+				if len(d.Fields[j].Terms[k].L) > 0 {
+					withLocs[d.Fields[j].Name+"\x00"+string(d.Fields[j].Terms[k].T)] = true
+				}
+			}
+		}
 		for j := range d.Fields {
 			f := &d.Fields[j]
 			for k := range f.Terms {
 				t := &f.Terms[k]
+				if t.N > 70000+len(t.L) && withLocs[f.Name+"\x00"+string(t.T)] {
+					t.N = 70000 + len(t.L)
+				}
 				if t.N < 1 {
 					t.N = 1
 				}
